@@ -1249,7 +1249,7 @@ func run(c *vf.Ctx) {
 	}())
 	if len(imgs) > 0 {
 		rng := c.Rand(4)
-		ncp := c.N(450, 12000)
+		ncp := c.N(450, 3000)
 		for n := 0; n < ncp; n++ {
 			a := imgs[rng.IntN(len(imgs))]
 			b := imgs[rng.IntN(len(imgs))]
